@@ -228,7 +228,8 @@ type vfServer struct {
 	setHdr2      map[string][]string // a second SetHeader call
 	setTrail2    map[string][]string // a second SetTrailer call
 	ctxSeen      context.Context
-	sendHdrFirst bool // call grpc.SendHeader before returning
+	sendHdrFirst bool                // call grpc.SendHeader before returning
+	sendHdrWith  map[string][]string // ... with these entries in addition
 	hook         func(ctx context.Context)
 }
 
@@ -273,7 +274,11 @@ func (s *vfServer) unary(ctx context.Context, req *fakeMsg) (interface{}, error)
 		grpc.SetTrailer(ctx, s.setTrail2)
 	}
 	if s.sendHdrFirst {
-		grpc.SendHeader(ctx, metadata.MD{"x-sent": []string{"1"}})
+		md := metadata.MD{"x-sent": []string{"1"}}
+		for k, v := range s.sendHdrWith {
+			md[k] = v
+		}
+		grpc.SendHeader(ctx, md)
 	}
 	if s.err != nil {
 		return nil, s.err
